@@ -1,6 +1,8 @@
 """Data flow, part 2: what each MPS site is given -- interaction matrix, bad-atom filter, drives,
 initial state (MPSBackendImpl._get_interaction_matrix, init_dark_qubits, update_H,
 update_H_no_noise, init_initial_state).  See contracts/mps_dataflow.py for the conventions."""
+import ast
+
 import z3
 
 from pyvc import maskidx, ops, symstr, tensor as T
@@ -276,8 +278,29 @@ def register(reg, prop):
     def setup_fill(mask):
         def _setup(I, fr):
             o = impl_obj(I, mask=mask, drives=False)
-            st = Opaque("state")
+            # the evolving state: an abstract MPS  coeff * base  (noisy trajectories are NOT normalised: the norm
+            # decays until the next jump); `scalar * state` scales coeff, `.factors / .orthogonality_center /
+            # .eigenstates` are records that remember which (scaled) state they were read from
+            nrm = I.ctx.fresh("state_norm", "real")
+            I.ctx.assume(to_z3(nrm) > 0)
+
+            def mk_state(coeff, base=None):
+                sm = SymObj("MPS", "emu_mps.mps")
+                sm.fields["coeff"] = coeff
+                sm.fields["base"] = base if base is not None else sm
+                for part in ("factors", "orthogonality_center", "eigenstates"):
+                    sm.fields[part] = Rec(part, (sm,), {})
+                sm.fields["norm"] = lambda I2: nrm
+
+                def binop(I2, op, other, reflected):
+                    if op is ast.Mult and not isinstance(other, (SymObj, Rec)):
+                        return mk_state(ops.mul(sm.fields["coeff"], other), sm.fields["base"])
+                    raise Unsupported("operation on the abstract state other than scalar * state")
+                sm.binop = binop
+                return sm
+            st = mk_state(1)
             o.fields["state"] = st
+            I.ctx.ghost["fill_norm"] = nrm
             o.fields["results"] = Opaque("results")
             calls = []
 
@@ -310,6 +333,18 @@ def register(reg, prop):
         fr.locals["made_from"] = lambda I2, v, k: v.args[k] if k < len(v.args) else None
         fr.locals["kw"] = lambda I2, v, name: v.kwargs.get(name)
         fr.locals["same"] = lambda I2, a, b: a is b
+        # `v` (a state, or a record read from a state) belongs to the NORMALISED evolving state: it is
+        # coeff * self.state with coeff * |state| == 1
+        nrm = I.ctx.ghost["fill_norm"]
+
+        def of_normalised_state(I2, v, impl):
+            owner = v.args[0] if isinstance(v, Rec) and v.kind in ("factors", "orthogonality_center", "eigenstates") else v
+            if not isinstance(owner, SymObj) or "coeff" not in owner.fields:
+                return False
+            if owner.fields["base"] is not impl.fields["state"]:
+                return False
+            return to_z3(ops.mul(owner.fields["coeff"], nrm)) == 1
+        fr.locals["of_normalised_state"] = of_normalised_state
 
     fill_policies = {
         f"{IMPL}:MPSBackendImpl._is_evaluation_time":
@@ -339,6 +374,14 @@ def register(reg, prop):
                 f"implies(called({tag!r}), times_called({tag!r}) == 1 and same(arg({tag!r}, 0), self.config)"
                 f" and same(arg({tag!r}, 4), self.results))",
             ]
+            # every observable is evaluated on the NORMALISED state (C13): directly, or padded from its factors
+            if mask:
+                per_obs += [
+                    f"implies(called({tag!r}), of_normalised_state(made_from(made_from(arg({tag!r}, 2), 0), 0), self)"
+                    f" and of_normalised_state(kw(arg({tag!r}, 2), 'eigenstates'), self)"
+                    f" and of_normalised_state(made_from(kw(arg({tag!r}, 2), 'orthogonality_center'), 1), self))"]
+            else:
+                per_obs += [f"implies(called({tag!r}), of_normalised_state(arg({tag!r}, 2), self))"]
             if mask:
                 per_obs += [
                     # with dark qubits it is given the state / Hamiltonian padded at the False SITES of the filter
